@@ -22,37 +22,37 @@ var intrinsics map[string]intrinsicFn
 
 func init() {
 	intrinsics = map[string]intrinsicFn{
-		"crypto/hmac.New":              inHmacNew,
-		"(*sync.Pool).Get":             inPoolGet,
-		"(*sync.Pool).Put":             inPoolPut,
-		"strings.TrimSpace":            inTrimSpace,
-		"strings.ToUpper":              func(e *Exec, a []Value, s *ssa.CallCommon) Value { return inCaseMap(e, a, true) },
-		"strings.ToLower":              func(e *Exec, a []Value, s *ssa.CallCommon) Value { return inCaseMap(e, a, false) },
-		"strings.Repeat":               inRepeat,
-		"strings.Split":                func(e *Exec, a []Value, s *ssa.CallCommon) Value { return inSplit(e, a[0], a[1], nil) },
-		"strings.SplitN":               func(e *Exec, a []Value, s *ssa.CallCommon) Value { return inSplit(e, a[0], a[1], a[2].(*Term)) },
-		"strings.Clone":                func(e *Exec, a []Value, s *ssa.CallCommon) Value { return a[0] },
-		"internal/stringslite.Clone":   func(e *Exec, a []Value, s *ssa.CallCommon) Value { return a[0] },
-		"strings.Contains":             inContains,
-		"fmt.Sprintf":                  inSprintf,
-		"fmt.Errorf":                   inErrorf,
-		"fmt.Sprint":                   inSprint,
-		"crypto/rand.Read":             inRandRead,
-		"internal/bytealg.MakeNoZero":  inMakeNoZero,
-		"crypto/subtle.XORBytes":       nil,
-		"time.Now":                     inTimeNow,
-		"time.Since":                   func(e *Exec, a []Value, s *ssa.CallCommon) Value { return e.tb.Const(64, 0) },
-		"time.runtimeNano":            func(e *Exec, a []Value, s *ssa.CallCommon) Value { return e.tb.Const(64, 1) },
-		"runtime.KeepAlive":            func(e *Exec, a []Value, s *ssa.CallCommon) Value { return &TupleV{} },
-		"(*sync.Mutex).Lock":           func(e *Exec, a []Value, s *ssa.CallCommon) Value { return &TupleV{} },
-		"(*sync.Mutex).Unlock":         func(e *Exec, a []Value, s *ssa.CallCommon) Value { return &TupleV{} },
-		"(*sync.RWMutex).RLock":        func(e *Exec, a []Value, s *ssa.CallCommon) Value { return &TupleV{} },
-		"(*sync.RWMutex).RUnlock":      func(e *Exec, a []Value, s *ssa.CallCommon) Value { return &TupleV{} },
-		"(*sync.RWMutex).Lock":         func(e *Exec, a []Value, s *ssa.CallCommon) Value { return &TupleV{} },
-		"(*sync.RWMutex).Unlock":       func(e *Exec, a []Value, s *ssa.CallCommon) Value { return &TupleV{} },
-		"strconv.FormatInt":            inFormatInt,
-		"strconv.Itoa":                 inFormatInt,
-		"strconv.Quote":                inQuote,
+		"crypto/hmac.New":                   inHmacNew,
+		"(*sync.Pool).Get":                  inPoolGet,
+		"(*sync.Pool).Put":                  inPoolPut,
+		"strings.TrimSpace":                 inTrimSpace,
+		"strings.ToUpper":                   func(e *Exec, a []Value, s *ssa.CallCommon) Value { return inCaseMap(e, a, true) },
+		"strings.ToLower":                   func(e *Exec, a []Value, s *ssa.CallCommon) Value { return inCaseMap(e, a, false) },
+		"strings.Repeat":                    inRepeat,
+		"strings.Split":                     func(e *Exec, a []Value, s *ssa.CallCommon) Value { return inSplit(e, a[0], a[1], nil) },
+		"strings.SplitN":                    func(e *Exec, a []Value, s *ssa.CallCommon) Value { return inSplit(e, a[0], a[1], a[2].(*Term)) },
+		"strings.Clone":                     func(e *Exec, a []Value, s *ssa.CallCommon) Value { return a[0] },
+		"internal/stringslite.Clone":        func(e *Exec, a []Value, s *ssa.CallCommon) Value { return a[0] },
+		"strings.Contains":                  inContains,
+		"fmt.Sprintf":                       inSprintf,
+		"fmt.Errorf":                        inErrorf,
+		"fmt.Sprint":                        inSprint,
+		"crypto/rand.Read":                  inRandRead,
+		"internal/bytealg.MakeNoZero":       inMakeNoZero,
+		"crypto/subtle.XORBytes":            nil,
+		"time.Now":                          inTimeNow,
+		"time.Since":                        func(e *Exec, a []Value, s *ssa.CallCommon) Value { return e.tb.Const(64, 0) },
+		"time.runtimeNano":                  func(e *Exec, a []Value, s *ssa.CallCommon) Value { return e.tb.Const(64, 1) },
+		"runtime.KeepAlive":                 func(e *Exec, a []Value, s *ssa.CallCommon) Value { return &TupleV{} },
+		"(*sync.Mutex).Lock":                func(e *Exec, a []Value, s *ssa.CallCommon) Value { return &TupleV{} },
+		"(*sync.Mutex).Unlock":              func(e *Exec, a []Value, s *ssa.CallCommon) Value { return &TupleV{} },
+		"(*sync.RWMutex).RLock":             func(e *Exec, a []Value, s *ssa.CallCommon) Value { return &TupleV{} },
+		"(*sync.RWMutex).RUnlock":           func(e *Exec, a []Value, s *ssa.CallCommon) Value { return &TupleV{} },
+		"(*sync.RWMutex).Lock":              func(e *Exec, a []Value, s *ssa.CallCommon) Value { return &TupleV{} },
+		"(*sync.RWMutex).Unlock":            func(e *Exec, a []Value, s *ssa.CallCommon) Value { return &TupleV{} },
+		"strconv.FormatInt":                 inFormatInt,
+		"strconv.Itoa":                      inFormatInt,
+		"strconv.Quote":                     inQuote,
 		"internal/godebug.(*Setting).Value": func(e *Exec, a []Value, s *ssa.CallCommon) Value { return e.constString("") },
 	}
 	delete(intrinsics, "crypto/subtle.XORBytes")
